@@ -97,7 +97,8 @@ func applyOp(objs []*bt.Tx, o int, op map[string]interface{}, key *bec.PrivateKe
 		for _, x := range op["utxos"].([]interface{}) {
 			u := x.(map[string]interface{})
 			us = append(us, &bt.UTXO{TxID: m2bytes(u, "id"), Vout: binary.LittleEndian.Uint32(m2bytes(u, "vout")),
-				LockingScript: bscript.NewFromBytes(m2bytes(u, "ps")), Satoshis: binary.LittleEndian.Uint64(m2bytes(u, "sats"))})
+				LockingScript: bscript.NewFromBytes(m2bytes(u, "ps")), Satoshis: binary.LittleEndian.Uint64(m2bytes(u, "sats")),
+				SequenceNumber: uint32(len(us)) * 0x7fffffff}) // whatever the record carries: inputs are added final
 		}
 		errRes(tx.FromUTXOs(us...))
 	case "addoutput":
@@ -120,6 +121,21 @@ func applyOp(objs []*bt.Tx, o int, op map[string]interface{}, key *bec.PrivateKe
 			errRes(tx.AddOpReturnOutput(parts[0]))
 		} else {
 			errRes(tx.AddOpReturnPartsOutput(parts))
+		}
+	case "inscribe", "inscribeat":
+		pfx := bscript.NewFromBytes(m2bytes(op, "prefix"))
+		if src, ok := op["aliasobj"]; ok {
+			// the prefix is a sub-slice of a locking script of another live object (as ParseInscription returns it)
+			if t := objs[num(src)%len(objs)]; len(t.Outputs) > 0 && len(*t.Outputs[len(t.Outputs)-1].LockingScript) >= 25 {
+				pfx = t.Outputs[len(t.Outputs)-1].LockingScript.Slice(0, 25)
+				logged["prefix"] = ints(*pfx)
+			}
+		}
+		ia := &bscript.InscriptionArgs{LockingScriptPrefix: pfx, Data: m2bytes(op, "data"), ContentType: string(m2bytes(op, "ct"))}
+		if op["k"] == "inscribe" {
+			errRes(tx.Inscribe(ia))
+		} else {
+			errRes(tx.InscribeSpecificOrdinal(ia, uint32(num(op["idx"])), binary.LittleEndian.Uint64(m2bytes(op, "satidx")), bscript.NewFromBytes(m2bytes(op, "extra"))))
 		}
 	case "insertus":
 		var err error
@@ -252,7 +268,16 @@ func randTxidCodes(rng *rand.Rand) []int {
 func randOp(rng *rand.Rand, objs []*bt.Tx, o int, key *bec.PrivateKey) Ev {
 	tx := objs[o]
 	q := quotes[rng.Intn(len(quotes))]
-	switch rng.Intn(22) {
+	switch rng.Intn(24) {
+	case 22, 23:
+		e := Ev{"k": "inscribe", "prefix": ints(randScript(rng, key)), "ct": ints(randBytes(rng, []int{0, 1, 9, 76}[rng.Intn(4)])), "data": ints(randBytes(rng, []int{0, 1, 5, 75, 76, 256}[rng.Intn(6)]))}
+		if rng.Intn(3) == 0 {
+			e["aliasobj"] = rng.Intn(3)
+		}
+		if rng.Intn(2) == 0 {
+			e["k"], e["idx"], e["satidx"], e["extra"] = "inscribeat", rng.Intn(len(tx.Inputs)+2), ints(randSats(rng)), ints(randScript(rng, key))
+		}
+		return e
 	case 0, 1, 2:
 		ps := hexCodes(randScript(rng, key))
 		if rng.Intn(12) == 0 {
